@@ -218,13 +218,21 @@ func judge(c *core.Ctx, in []geom.Point, out []geom.Point, tol float64, shape, k
 		return
 	}
 	// tolerance of every dropped vertex
+	// rounding slack: the implementation measures distances in float64, whose error is a few
+	// ulps of the coordinate magnitude (a vertex 2e-13 off a segment at coordinates ~1e4 is
+	// indistinguishable from collinear and is legitimately dropped at tolerance 0)
+	slack := 0.0
+	for _, p := range in {
+		slack = math.Max(slack, math.Max(math.Abs(p.X), math.Abs(p.Y)))
+	}
+	slack *= 64 * 1.2e-16
 	dropped := 0
 	for s := 0; s+1 < len(idx); s++ {
 		a, b := in[idx[s]], in[idx[s+1]]
 		for k := idx[s] + 1; k < idx[s+1]; k++ {
 			dropped++
 			d := exact.DistPointSeg(gen.EP(in[k]), gen.EP(a), gen.EP(b))
-			if !(d <= tol*(1+1e-12)+1e-300) && !math.IsInf(tol, 1) {
+			if !(d <= tol*(1+1e-12)+slack) && !math.IsInf(tol, 1) {
 				last := "inner"
 				if s+2 == len(idx) {
 					last = "final-segment"
@@ -435,11 +443,16 @@ func judgeRing(c *core.Ctx, in, out []geom.Point, tol float64, detail map[string
 		c.Violate("endpoints:ring", "ring output does not keep the first and last vertex", detail)
 		return
 	}
+	slack := 0.0
+	for _, p := range in {
+		slack = math.Max(slack, math.Max(math.Abs(p.X), math.Abs(p.Y)))
+	}
+	slack *= 64 * 1.2e-16
 	for s := 0; s+1 < len(idx); s++ {
 		a, b := in[idx[s]], in[idx[s+1]]
 		for k := idx[s] + 1; k < idx[s+1]; k++ {
 			d := exact.DistPointSeg(gen.EP(in[k]), gen.EP(a), gen.EP(b))
-			if !(d <= tol*(1+1e-12)+1e-300) && !math.IsInf(tol, 1) {
+			if !(d <= tol*(1+1e-12)+slack) && !math.IsInf(tol, 1) {
 				c.Violate("tolerance:ring", fmt.Sprintf("dropped ring vertex %d is %v away from its replacing segment, tolerance %v", k, d, tol), detail)
 				return
 			}
